@@ -98,7 +98,7 @@ def build_harness(name, sources, extra_defs="", cflags="", libs=""):
         return out
     tmp = out + ".tmp%d" % os.getpid()
     defs = " ".join("-D" + x for x in (GUARD + " " + extra_defs).split())
-    sh("gcc -O1 -g -Wall -Wno-unused-function %s -I%s/include -I%s/igzip -I%s/erasure_code -I%s %s -o %s %s %s/isa-l.a %s -lpthread -ldl" %
+    sh("gcc -O1 -g -Wall -Wno-unused-function %s -I%s/include -I%s/igzip -I%s/erasure_code -I%s %s -o %s %s -Wl,--whole-archive %s/isa-l.a -Wl,--no-whole-archive %s -lpthread -ldl" %
        (defs, REPO, REPO, REPO, HARNESS, cflags, tmp, " ".join(srcs), d, libs), timeout=600)
     os.rename(tmp, out)
     return out
